@@ -92,6 +92,9 @@ def spatial_average(
     """
     logger.info(f"Performing coarse-graining from {neighborfile}")
     cg_input_property = np.copy(input_property)
+    if not np.issubdtype(cg_input_property.dtype, np.inexact):
+        # integer / boolean property (e.g. coordination numbers, flags): the mean is not an integer
+        cg_input_property = cg_input_property.astype(np.float64)
     with open(neighborfile, mode="r", encoding="utf-8") as fneighbor:
         for n in range(input_property.shape[0]):
             cnlist = read_neighbors(fneighbor, input_property.shape[1], Nmax)
